@@ -43,7 +43,11 @@ def gen_style(rng):
         elif r < 0.4:
             parts.append(prefix + "#%02x%02x%02x" % (rng.randrange(256), rng.randrange(256), rng.randrange(256)))
     if rng.random() < 0.12:
-        parts.append("link https://example.org/p%d?a=1&b=2" % rng.randrange(100))
+        # URLs with everything a URL may legally carry (the OSC 8 payload is `params;URI`: the
+        # URI itself may contain ';', ':', '=', '#', ',' ...)
+        parts.append("link " + rng.choice([
+            "https://example.org/p%d?a=1&b=2", "https://example.org/app/login;jsessionid=%dA?next=/home",
+            "https://user@example.org:8080/x,y/%d#frag", "file:///tmp/a=b;c=%d", "https://e.x/%d"]) % rng.randrange(100))
     return " ".join(parts)
 
 
